@@ -245,6 +245,8 @@ VARIANTS = [
     # ---------------- additive changes (round 12) ------------------------------------------------------------------
     ("map-rewritten-by-a-method-called-from-an-inlined-method", F, ["C11"], [(SI, "            for as_num in as_numbers\n        }\n", "            for as_num in as_numbers\n        }\n        self._resolve_replacement_collisions(as_numbers)\n\n    def _resolve_replacement_collisions(self, as_numbers):\n        used = set()\n        for as_num in as_numbers:\n            replacement = self.as_num_map[as_num]\n            while replacement in used:\n                replacement = str(int(replacement) + 1)\n            used.add(replacement)\n            self.as_num_map[as_num] = replacement\n")]),
     ("host-bits-second-way-out", F, ["C19"], [(NC, "    val = int(x)\n", "    if isinstance(x, str) and x.strip().startswith(\"/\"):\n        return 32 - int(x.strip()[1:])\n    val = int(x)\n")]),
+    ("decoder-keeps-prefix-of-a-cut-group", F, ["C18", "C08", "C14"], [(JS, "        nibble, chars = _nibble(chars, nibble_len)\n", "        nibble, chars = _nibble(chars, nibble_len)\n        if len(nibble) < nibble_len:\n            break\n")]),
+    ("decoder-refuses-a-cut-group-explicitly", S, ["C18", "C08"], [(JS, "        nibble, chars = _nibble(chars, nibble_len)\n", "        nibble, chars = _nibble(chars, nibble_len)\n        if len(nibble) < nibble_len:\n            raise ValueError(\"Invalid Juniper crypt string!\")\n")]),
     ("encoder-refuses-some-characters", F, ["C18"], [(JS, "    for gap in gaps:\n        gap += ALPHA_NUM[prev] + 1\n", "    if any(gap >= len(NUM_ALPHA) - 2 for gap in gaps):\n        raise ValueError(\"cannot be encoded\")\n    for gap in gaps:\n        gap += ALPHA_NUM[prev] + 1\n")]),
     ("info-summary-of-the-secret-lookup", F, ["C07"], [(AF, "    if dumpfile is not None:\n", "    if file_anonymizer.pwd_lookup:\n        logging.info(\"Replaced items: %s\", sorted(file_anonymizer.pwd_lookup))\n\n    if dumpfile is not None:\n")]),
     ("info-count-of-the-secret-lookup", S, None, [(AF, "    if dumpfile is not None:\n", "    if file_anonymizer.pwd_lookup is not None:\n        logging.info(\"Replaced %d distinct items\", len(file_anonymizer.pwd_lookup))\n\n    if dumpfile is not None:\n")]),
